@@ -141,6 +141,26 @@ def run(chk, gate, status):
                         "regions are passed to the model as resolved index lists (the selector grammar is C13's subject)"]
     cov = histcheck.run(chk, gens, oracle, 'C01', RULE, nontrivial)
     cov['operations_under_configuration_variants'] = histcheck.variants(chk, gens, oracle, 'C01v', limit=8 if chk.tier == 'quick' else 60)
+    # recipe steps conserve as well: baked objects against the same transfers applied directly (directed recipes with transfers inside
+    # one plate -- region to region, one well to several, a region pooled into a well -- and generated ones with plate steps)
+    import recipes
+    from props import C08
+    n = 10 if chk.tier == 'quick' else 100
+    cases, i = [(recipes.Replayed(p), []) for p in recipes.directed_recipes()], 0
+    while len(cases) < n + 7 and i < 10 * n:
+        rng = random.Random(chk.seed * 100003 + 11000 + i)
+        i += 1
+        rg = recipes.RecipeGen(rng, rng.randint(3, 9), allow_d13=False, with_solutions=False)
+        if sum(1 for st in rg.steps if st['op'] == 'transfer' and ('p' in st['src'] or 'p' in st['dst'])) >= 2:
+            cases.append((rg, []))
+
+    def recipe_oracle(prog, rg, out, qres):
+        f, known = C08.oracle(prog, rg, out, qres)
+        return ['transfers written as recipe steps: ' + x for x in f], known
+    rc = recipes.check(chk, 'C01r', cases, recipe_oracle, RULE, C08.nontrivial)
+    cov['recipe_clause'] = {k: rc[k] for k in ('programs', 'distinct_nontrivial', 'disagreements_checked', 'oracle_failures')}
+    for k in ('evaluations', 'programs', 'disagreements_checked', 'oracle_failures'):
+        cov[k] += rc[k]
     for msg in runtime_precision_probe()[:2]:
         cov['oracle_failures'] += 1
         chk.violation(msg, {'kind': 'runtime-precision'})
@@ -149,6 +169,10 @@ def run(chk, gate, status):
 
 def replay(path):
     import json
+    if 'recipe' in json.load(open(path)):
+        import recipes
+        from props import C08
+        return recipes.replay(path, C08.oracle)
     if json.load(open(path)).get('kind') == 'runtime-precision':
         f = runtime_precision_probe()
         for m in f:
